@@ -279,11 +279,26 @@ Section Ident.
   Definition consistent_event (pre : trace) (e : event) : Prop :=
     forward_ok (e_post e) /\ reverse_ok (e_post e).
 
+  (* ---- 7. (strengthening round 2) what is handed out IS what the store holds: the NameID an issuing
+          operation answers is of the format and for the requester / qualifier that were asked for, and
+          in the state the operation leaves behind it maps back to that user and is one of the identifiers
+          stored for that user (as a whole NameID: qualifiers, format, SPProvidedID, value) *)
+  Definition issued_event (pre : trace) (e : event) : Prop :=
+    forall u f s q n, request_of (e_op e) = Some (u, f, s, q) -> e_out e = ONid n ->
+      fmt n = Some f /\ same_q (spq n) s /\ same_q (nq n) q
+      /\ exists t, txt n = Some t /\ lookup t (e_post e) = Some u /\ In (code n) (fw (e_post e) u).
+
+  (* ---- 8. (strengthening round 2) the reverse lookup answers what the store holds at that moment, and
+          nothing else: find_local_id is a function of the current store *)
+  Definition findlocal_event (pre : trace) (e : event) : Prop :=
+    forall m, e_op e = FindLocal m ->
+      e_out e = match lookup_opt (txt m) (e_pre e) with Some u => OStr u | None => ONone end.
+
   Definition ident_spec (tr : trace) : Prop :=
     wf tr ->
     all_pairs stable_pair tr /\ all_pairs distinct_pair tr /\ all_pairs reverse_pair tr
     /\ all_events valued_event tr /\ all_events transient_event tr /\ all_events manage_event tr
-    /\ all_events consistent_event tr.
+    /\ all_events consistent_event tr /\ all_events issued_event tr /\ all_events findlocal_event tr.
 
   (* ---------------- boolean twins *)
   Definition req_eqb_user (a b : string) := String.eqb a b.
@@ -390,10 +405,28 @@ Section Ident.
   Definition consistent_event_b (pre : trace) (e : event) : bool :=
     forward_ok_b (e_post e) && reverse_ok_b (e_post e).
 
+  Definition issued_event_b (pre : trace) (e : event) : bool :=
+    match request_of (e_op e), e_out e with
+    | Some (u, f, s, q), ONid n =>
+        ostr_eqb (fmt n) (Some f) && same_qb (spq n) s && same_qb (nq n) q
+        && match txt n with
+           | Some t => ostr_eqb (lookup t (e_post e)) (Some u) && mem (code n) (fw (e_post e) u)
+           | None => false
+           end
+    | _, _ => true
+    end.
+
+  Definition findlocal_event_b (pre : trace) (e : event) : bool :=
+    match e_op e with
+    | FindLocal m =>
+        out_eqb (e_out e) (match lookup_opt (txt m) (e_pre e) with Some u => OStr u | None => ONone end)
+    | _ => true
+    end.
+
   Definition ident_spec_parts_b (tr : trace) : list bool :=
     [all_pairs_b stable_pair_b tr; all_pairs_b distinct_pair_b tr; all_pairs_b reverse_pair_b tr;
      all_events_b valued_event_b tr; all_events_b transient_event_b tr; all_events_b manage_event_b tr;
-     all_events_b consistent_event_b tr].
+     all_events_b consistent_event_b tr; all_events_b issued_event_b tr; all_events_b findlocal_event_b tr].
 
   Definition ident_spec_b (tr : trace) : bool :=
     negb (wf_b tr) || forallb (fun b => b) (ident_spec_parts_b tr).
